@@ -157,7 +157,7 @@ class Extractor:
     def parse_block(self, block):
         """parse the directive block of an EXTRACT."""
         d = dict(ret=None, safety=None, spec=None, loops={}, loopstart={}, loopend={}, inserts=[], substs=[], bodyonly=False,
-                 frm=None, to=None, optional=False, rename=None, pub=False, r4=False, replaces=[], pubfields=False, fnend=None, fnstart=None, attr=None, r4tail=False)
+                 frm=None, to=None, optional=False, rename=None, pub=False, r4=False, replaces=[], pubfields=False, fnend=None, fnstart=None, attr=None, r4tail=False, frm_after=False)
         i = 0
 
         def grab(endmarks):
@@ -246,6 +246,9 @@ class Extractor:
                 d["replaces"].append((rule, frm, to, new))
             elif k == "FROM":
                 d["frm"], _ = grab(["ENDFROM"])
+            elif k == "FROMAFTER":
+                d["frm"], _ = grab(["ENDFROMAFTER"])
+                d["frm_after"] = True
             elif k == "TO":
                 d["to"], _ = grab(["ENDTO"])
             else:
@@ -263,8 +266,12 @@ class Extractor:
         d = self.parse_block(block)
         lo, hi = 0, len(src.toks)
         for cont in parts[1:-1]:
-            o, c = src.find_container(cont, lo, hi)
-            lo, hi = o + 1, c
+            if cont.startswith("fn "):
+                itc = src.find_item("fn", cont[3:].strip(), lo, hi, cfg_eval=eval_cfg)
+                lo, hi = itc["body_open"] + 1, itc["body_close"]
+            else:
+                o, c = src.find_container(cont, lo, hi)
+                lo, hi = o + 1, c
         kind, name = parts[-1].split(None, 1)
         if kind == "bitflags":
             return self.do_bitflags(src, name, lo, hi), None, name
@@ -634,7 +641,7 @@ class Extractor:
                 ht = find_seq(toks, wt, body_lo, body_hi)
                 if len(hf) != 1 or len(ht) != 1:
                     raise LostAnchor("%s: block anchors match %d/%d times in %s" % (rel, len(hf), len(ht), name))
-                cut_lo = toks[hf[0]].start - base
+                cut_lo = (toks[hf[0] + len(wf) - 1].end - base) if d["frm_after"] else (toks[hf[0]].start - base)
                 cut_hi = toks[ht[0] + len(wt) - 1].end - base
                 bump("R7")
                 l1 = src.text.count("\n", 0, toks[hf[0]].start) + 1
